@@ -4,8 +4,10 @@ sd="$1"; prop="${2:-$(python3 -c "import json,sys;print(json.load(open('$sd/meta
 cd /repo || exit 2
 if ! git diff --quiet; then echo "repo dirty"; exit 2; fi
 git apply "$sd/patch.diff" 2>/tmp/apply.err || { echo "PATCH DOES NOT APPLY: $(head -3 /tmp/apply.err)"; exit 2; }
-cd /verif; ./vcheck "$prop" --tier "$tier" > /tmp/try_seed.out 2>&1; rc=$?
+cd /verif; cp evidence/$prop.json /tmp/evidence_saved_$prop.json 2>/dev/null
+./vcheck "$prop" --tier "$tier" > /tmp/try_seed.out 2>&1; rc=$?
 git -C /repo checkout -- .
+cp /tmp/evidence_saved_$prop.json evidence/$prop.json 2>/dev/null
 grep -c "^VIOLATION" /tmp/try_seed.out | sed "s/^/violations: /"
 grep "^VIOLATION" /tmp/try_seed.out | head -3
 tail -1 /tmp/try_seed.out | cut -c1-300
